@@ -2,6 +2,7 @@
 // Observable<int>, <long>, <unsigned>, <float, NearEq>, <double, NearEq> and <std::string>.
 #include <cmath>
 #include <map>
+#include <memory>
 #include <string>
 #include <vector>
 
@@ -64,7 +65,9 @@ std::string digits_of(const std::string &s) {
 
 template <class T, class Eq, bool IsFloat>
 void run_num(const Execution &ex) {
-    tulz::Observable<T, Eq> o{Conv<T>::to(ex.cfg.num("init", 0))};
+    using Obs = tulz::Observable<T, Eq>;
+    auto po = std::make_unique<Obs>(Conv<T>::to(ex.cfg.num("init", 0)));
+#define o (*po)
     using Sub = decltype(o.subscribe([](T) {}));
     std::map<int, Sub> subs;
     std::vector<std::pair<int, long>> notes;
@@ -80,7 +83,14 @@ void run_num(const Execution &ex) {
         else if (op == "Sub") o -= Conv<T>::to(v);
         else if (op == "Mul") o *= (T) v;          // factors and divisors are plain numbers, not quarters
         else if (op == "Div") o /= (T) v;
-        else if (op == "AssignBig") o = Conv<T>::to(1000000);
+        else if (op == "MoveConstruct") {   // the observable (value, comparator, subscribers) moves into a new object
+            auto n = std::make_unique<Obs>(std::move(o));
+            po = std::move(n);
+        } else if (op == "MoveAssign") {
+            auto n = std::make_unique<Obs>(Conv<T>::to(0));
+            *n = std::move(o);
+            po = std::move(n);
+        } else if (op == "AssignBig") o = Conv<T>::to(1000000);
         else if (op == "AddAbsorbed") o += Conv<T>::to(v);
         else if (op == "DivZero") o /= Conv<T>::to(0);
         else if (op == "AddF") o += (double) v / 2;   // an operand of another arithmetic type
@@ -128,9 +138,13 @@ void run_num(const Execution &ex) {
     }
 }
 
+#undef o
+
 void run_str(const Execution &ex) {
     std::string init = ex.cfg.str("init", "-");
-    tulz::Observable<std::string> o{str_of(init)};
+    using Obs = tulz::Observable<std::string>;
+    auto po = std::make_unique<Obs>(str_of(init));
+#define o (*po)
     using Sub = decltype(o.subscribe([](std::string) {}));
     std::map<int, Sub> subs;
     std::vector<std::pair<int, std::string>> notes;
@@ -139,7 +153,14 @@ void run_str(const Execution &ex) {
         std::string op = st.str("op");
         notes.clear();
         if (op == "Assign") o = str_of(st.str("v", "-"));
-        else if (op == "Concat") o += str_of(st.str("v", "-"));
+        else if (op == "MoveConstruct") {
+            auto n = std::make_unique<Obs>(std::move(o));
+            po = std::move(n);
+        } else if (op == "MoveAssign") {
+            auto n = std::make_unique<Obs>(std::string("zz"));
+            *n = std::move(o);
+            po = std::move(n);
+        } else if (op == "Concat") o += str_of(st.str("v", "-"));
         else if (op == "Apply") {
             std::string f = st.str("f");
             if (f == "id") o.apply([](std::string &) {});
@@ -163,6 +184,8 @@ void run_str(const Execution &ex) {
         ++i;
     }
 }
+
+#undef o
 
 void run_exec(const Execution &ex) {
     std::string ty = ex.cfg.str("type", "int");
